@@ -170,7 +170,9 @@ def theorems_in(path):
         if m and ns and ns[-1] == m.group(1):
             ns.pop()
             continue
-        m = re.match(r'\s*(?:@\[[^\]]*\]\s*)?(?:private\s+|protected\s+)?theorem\s+([^\s:({\[]+)', line)
+        if re.match(r'\s*(?:@\[[^\]]*\]\s*)?private\s+theorem\s', line):
+            continue      # helpers of the non-vacuity examples: not addressable from outside the file, not property theorems
+        m = re.match(r'\s*(?:@\[[^\]]*\]\s*)?(?:protected\s+)?theorem\s+([^\s:({\[]+)', line)
         if m:
             names.append('.'.join(ns + [m.group(1)]))
     return names
